@@ -112,6 +112,26 @@ def r1(ck, F):
             ck.bad("C14.R1", "finish: every collected field is serialised", where(fin.raw["sp"]), "expected one closure serialising the entries, found %d" % len(cl), fn=fin.path)
         else:
             n, probs = loop_body_always_calls(cl[0], lambda c: c[1].get("method") == "serialize_entry")
+            if not n and not probs:
+                # the loop written as `values.into_iter().try_for_each(|(k, v)| map.serialize_entry(k, &v))`: the per-item
+                # closure serialises on every path, and the iterator it is driven by is the collection itself (no adaptor
+                # that drops items in between)
+                every = all(any(c[1].get("method") == "serialize_entry" for c in q.calls) for q in PathEval(cl[0]).run() if q.end == "return")
+                driver_ok = False
+                for x in [fin] + F.closures_of(fin):
+                    for bb, t in x.calls():
+                        if t["callee"].get("method") in ("try_for_each", "for_each") and len(t["argv"]) == 2:
+                            recv = x.origin(t["argv"][0])
+                            chain = []
+                            while recv[0] == "call" and len(chain) < 6:
+                                chain.append(recv[2]["callee"].get("method"))
+                                recv = x.origin(recv[2]["argv"][0]) if recv[2]["argv"] else ("end",)
+                            if chain and set(chain) <= {"into_iter", "iter", "iter_mut", "by_ref"}:
+                                driver_ok = True
+                if every and driver_ok:
+                    n = 1
+                else:
+                    probs = ["the entries are serialised by a closure that %s" % ("skips some on a path" if not every else "is not driven by the collection's own iterator")]
             if n and not probs:
                 ck.ok("C14.R1", "finish: every collected field is serialised (no entry is filtered out)", fn=cl[0].path)
             else:
